@@ -1,0 +1,37 @@
+//go:build verif
+
+package mapping
+
+import (
+	"encoding/json"
+	"reflect"
+	"testing"
+
+	"github.com/gotid/god/internal/verifdrv"
+)
+
+type verifCase struct {
+	Shape verifdrv.Shape `json:"shape"`
+	JSON  string         `json:"json"`
+	YAML  string         `json:"yaml"`
+}
+
+// TestVerifDriver materialises the struct shape of every case and unmarshals the JSON text (and, when
+// given, the YAML text) into a fresh zero value of it.
+func TestVerifDriver(t *testing.T) {
+	verifdrv.Run(t, func(raw json.RawMessage) any {
+		var c verifCase
+		if err := json.Unmarshal(raw, &c); err != nil {
+			return map[string]any{"error": err.Error()}
+		}
+		var typ reflect.Type
+		if panicked, pv := verifdrv.Catch(func() { typ = c.Shape.Build() }); panicked {
+			return map[string]any{"error": "shape: " + pv}
+		}
+		out := map[string]any{"j": verifdrv.RunInto(typ, func(v any) error { return UnmarshalJsonBytes([]byte(c.JSON), v) })}
+		if c.YAML != "" {
+			out["y"] = verifdrv.RunInto(typ, func(v any) error { return UnmarshalYamlBytes([]byte(c.YAML), v) })
+		}
+		return out
+	})
+}
